@@ -28,6 +28,9 @@ static _Bool q_remove(uintptr_t block) { q_remove_n++; q_remove_block = block; q
 unsigned q_acq_n;
 static uintptr_t q_acquire_control_block(void) { uintptr_t b = nondet_uptr(); XV_ASSUME(b != 0); q_acq_n++; return b; }
 #define Q_acquire_control_block(q) q_acquire_control_block()
+unsigned cb_abandon_n; uintptr_t cb_abandon_block;     /* thread_control_block::abandon(): the entry goes back to the global block list */
+static void cb_abandon(void);
+#define CB_abandon(x) cb_abandon()
 unsigned q_head_reads; stamp_t q_head_val;
 static stamp_t q_head_stamp(void) { q_head_reads++; q_head_val = nondet_size(); return q_head_val; }
 #define Q_head_stamp(q) q_head_stamp()
@@ -128,6 +131,8 @@ extern unsigned g_n[3]; extern _Bool restart_seen; extern size_t in_tail;
 
 #include "lowered.h"
 
+static void cb_abandon(void) { cb_abandon_n++; cb_abandon_block = xv_td.control_block; }
+
 /* ================= state ================= */
 #ifndef NN
 #define NN 6
@@ -135,8 +140,10 @@ extern unsigned g_n[3]; extern _Bool restart_seen; extern size_t in_tail;
 /* six separate objects, not an array: cbmc keeps pointer offsets exact per object, so interior pointers (struct node**) stay cheap */
 struct node xv_n0, xv_n1, xv_n2, xv_n3, xv_n4, xv_n5;
 static struct node* ND(unsigned i) { return i == 0 ? &xv_n0 : i == 1 ? &xv_n1 : i == 2 ? &xv_n2 : i == 3 ? &xv_n3 : i == 4 ? &xv_n4 : &xv_n5; }
+unsigned in_dtor;
 static void reset_ghost(void) {
   xv_clock = 1; xv_threw = 0;
+  cb_abandon_n = 0; cb_abandon_block = 0; in_dtor = 0;
   q_push_n = q_remove_n = q_acq_n = q_head_reads = q_tail_reads = q_steal_n = q_add_n = 0; q_tail_max = 0; q_add_bad = 0; q_add_first = q_add_last = 0;
   q_push_block = q_remove_block = 0; q_push_re = q_remove_re = 0; q_push_clk = 0; q_global_head = 0; del_bad_stamp = 0; del_poison = 0; del_count = 0; del_at_restart = 0;
   poison.next = 0; poison.next_chunk = 0; poison.stamp = nondet_size(); poison.deleted = 0;
@@ -266,6 +273,43 @@ void h_local(void) {
   if (in_len == LL && ndel == LL) XV_CANARY("local.all_deleted");
   if (in_len == 0) XV_CANARY("local.empty");
   if (ndel > 0 && ndel < in_len) XV_CANARY("local.prefix");
+}
+
+/* ================= ~thread_data (thread exit) ================= */
+void h_dtor(void) {
+  havoc_td();
+  in_len = nondet_uint(); in_j = nondet_uint(); XV_ASSUME(in_len <= LL && in_j < NN);
+  for (unsigned i = 0; i < LL; ++i) if (i < in_len) ND(i)->next = (i + 1 < in_len) ? ND(i + 1) : 0;
+  xv_td.first_retired_node = in_len ? ND(0) : 0;
+  xv_td.prev_retired_node = in_len ? &ND(in_len - 1)->next : &xv_td.first_retired_node;
+  xv_td.number_of_retired_nodes = in_len;
+  xv_td.region_entries = 0;                                   /* the destructor's own assert: no region is open at thread exit */
+  uintptr_t cb = xv_td.control_block; struct node j0 = (*ND(in_j)); record_stamps(); in_dtor = 1;
+  sg_thread_data_dtor(&xv_td);
+  unsigned ndel = 0; for (unsigned i = 0; i < NN; ++i) ndel += ND(i)->deleted;
+  unsigned handed = q_add_n ? reach_list(q_add_first, ND(in_j), LL + 1) : 0;
+  if (cb == 0) {
+    XV_OBL("stamp.dtor.hands_over_all", cb_abandon_n == 0 && ndel == 0 && q_add_n == 0 && q_tail_reads == 0 && xv_td.control_block == 0);
+    XV_OBL("stamp.dtor.hands_over_all", xv_td.first_retired_node == (in_len ? ND(0) : 0) && xv_td.number_of_retired_nodes == in_len && ND(in_j)->next == j0.next && ND(in_j)->stamp == j0.stamp);
+    XV_CANARY("dtor.no_control_block");
+  } else {
+    XV_OBL("stamp.dtor.hands_over_all", cb_abandon_n == 1 && cb_abandon_block == cb && xv_td.control_block == 0);     /* released exactly once */
+    XV_OBL("stamp.dtor.hands_over_all", !del_bad_stamp && !del_poison && !reach_poison && !q_add_bad && q_tail_reads == 1);
+    XV_OBL("stamp.dtor.hands_over_all", ndel <= in_len && q_add_n == (ndel < in_len ? 1u : 0u));                         /* anything left => one hand-over */
+    if (q_add_n) XV_OBL("stamp.dtor.hands_over_all", q_add_first == ND(ndel) && q_add_last == q_add_first);             /* the whole remaining chain, from its first node */
+    if (in_j < in_len) {
+      XV_OBL("stamp.dtor.hands_over_all", ND(in_j)->deleted + handed == 1);                                             /* deleted once or handed over once: nothing lost */
+      if (ND(in_j)->deleted) { XV_OBL("stamp.dtor.hands_over_all", j0.stamp <= q_tail_max); XV_CANARY("dtor.deleted"); }
+      else { XV_OBL("stamp.dtor.hands_over_all", ND(in_j)->stamp == j0.stamp); XV_CANARY("dtor.handed_over"); }
+    } else {
+      XV_OBL("stamp.dtor.hands_over_all", ND(in_j)->deleted == 0 && handed == 0 && ND(in_j)->stamp == j0.stamp && ND(in_j)->next == j0.next);
+    }
+    XV_OBL("stamp.region.balanced", q_push_n == 0 && q_remove_n == 0 && xv_td.region_entries == 0);
+    if (in_len - ndel == 1 && in_len == LL) XV_CANARY("dtor.single_node_left");
+    if (in_len > 0 && ndel == in_len) XV_CANARY("dtor.all_deleted");
+    if (in_len == 0) XV_CANARY("dtor.empty_list");
+    if (ndel == 0 && in_len == LL) XV_CANARY("dtor.whole_list_handed_over");
+  }
 }
 
 /* ================= process_global_nodes ================= */
